@@ -47,10 +47,19 @@ func TestC03(t *testing.T) {
 			all := withEnv(p.D, allIdx(len(p.D.Opts)))
 			c.Nest = hasNest(all, p.AST)
 			if chance(rt, 1, 6, "pump") {
-				c.Argv = pump(rt, c.Argv, 20, 200)
-				c.Source = "grammar-pumped"
+				// long inputs only where the spec is ambiguity-bounded for them: on an ambiguous spec the library's search is
+				// exhaustive by design (polynomial with its visited set, but n^k in the number of option occurrences), and a
+				// deadline would not distinguish that from a hang (DESIGN.md, C03 size bounds)
+				long := pump(rt, c.Argv, 20, 200)
+				probe := &Ref{D: all}
+				if v := probe.Run(p.AST, long); !v.Exceeded && probe.Work <= WorkBound {
+					c.Argv = long
+					c.Source = "grammar-pumped"
+				} else {
+					st.Class("pump:skipped-ambiguous-spec")
+				}
 			}
-			if chance(rt, 1, 5, "editspec") {
+			if c.Source != "grammar-pumped" && chance(rt, 1, 5, "editspec") {
 				c.Spec = []byte(mutateSpec(rt, string(c.Spec)))
 				c.Source = "grammar-edited"
 			}
